@@ -2,16 +2,18 @@
 """Copy confirmed sub-agent mutants from /tmp/mw/<PID>/mutants into /verif/seeded/<PID>-m<i>/."""
 import os, sys, json, shutil, glob, re
 V = "/verif"
+MW = os.environ.get("MW", "/tmp/mw2")
+OFF = int(os.environ.get("OFF", "2"))
 for pid in sys.argv[1:]:
     for i in (1, 2):
-        m = f"/tmp/mw/{pid}/mutants"
+        m = f"{MW}/{pid}/mutants"
         cf = f"{m}/m{i}.confirm.json"
         if not os.path.exists(cf):
             print(pid, i, "not confirmed yet"); continue
         conf = json.load(open(cf))
         if not (conf["applies"] and conf["suite_pass"] and conf["demo_fails_with"] and conf["demo_passes_without"]):
             print(pid, i, "NOT CONFIRMED", conf); continue
-        d = f"{V}/seeded/{pid}-m{i}"
+        d = f"{V}/seeded/{pid}-m{i + OFF}"
         os.makedirs(d, exist_ok=True)
         shutil.copy(f"{m}/m{i}.diff", f"{d}/patch.diff")
         if os.path.isdir(f"{d}/demo"):
